@@ -115,6 +115,9 @@
       reply mode per outcome; `Proofs/FinishTsigPos.finish_tsig_pos` / `tsig_prefix_of_good`: the decoded
       TSIG record starts exactly where the MAC input ends, for every valid writer — answers included;
       `Proofs/AuditMac.response_mac_audit`: (1e), the MAC is the audit's `specMac`).
+      `C10_audit_authenticated_nodata`: row 2 (authenticated, no-data verdict) — every clause but
+      "answered normally" holds (`AuditWalk.auditResponse_authenticated`, `AnsweredNormally`), that
+      clause being a hypothesis.
 
   Recorded correction of the *oracle* (`Spec.ServerTsig.audit`): the clause "answered normally"
   compares with the response to `stripTsigRr req`, which decrements ARCOUNT (octets 10–11).  The name
@@ -1498,6 +1501,119 @@ theorem C10_audit_rejected (cfg : Cfg) (cat : List Spec.Server.ZoneCfg) (tr : Tr
       rw [hnat, hfa.time]; rfl
 
 open QV.ServerScan in
+open QV.ServerScan in
+/-- **audit of an authenticated request with a no-data verdict** (row 2: FORMERR after the TSIG record,
+    NOTIMP, REFUSED, SERVFAIL for a zone not loaded), the clause "answered normally" being the
+    hypothesis `hdata`: all the other clauses hold — `tsig-missing`, `two-tsig`, `tsig-rdata`,
+    `tsig-not-last`, `tsig-class-ttl`, `key-name`, `alg-name`, `fudge`, `original-id`, `id`,
+    `tsig-error-*`, `notauth-on-authenticated`, `mac-length`, `response-mac`, `other-data`,
+    `time-signed` never arise -/
+theorem C10_audit_authenticated_nodata (cfg : Cfg) (cat : List Spec.Server.ZoneCfg) (tr : Transport) (now : Nat)
+    (req : Bytes) (hpay : 512 ≤ cfg.payload) (hp16 : cfg.payload ≤ 65535) (hk : KeysOK cfg.keys)
+    {nowT : TimeSigned} {t : ReadTsigRr} {mw : Bytes} {r' : Reader.Reader} {question : Option (WName × Nat × Nat)}
+    {d : Spec.Server.Delim} {kn alg : WName} {rest : List UInt8}
+    (h : AuditRun cfg cat tr now req nowT t mw r' question d kn alg rest)
+    (hrow : ServerContent.RowAuthNoData cfg tr now 65535 req t mw r')
+    (b : Bytes) (hb : handleMessage cfg tr now 65535 req = .ok (some b)) (plain : Spec.ServerTsig.Resp)
+    (hdata : ∀ dm, Spec.specDecodeMsg b = some dm →
+      AnsweredNormally dm (decide (tr = .udp)) (Spec.ServerTsig.plainComparable cat cfg.payload req) plain) :
+    (Spec.ServerTsig.audit hmSpec cat cfg.payload (specKeys cfg.keys) req now (tr = .udp)
+      (toResp (handleMessage cfg tr now 65535 req)) plain).1 = [] := by
+  obtain ⟨hrM, iq, ie, il⟩ := h.scanM
+  rw [audit_eq_of_run h, hb]
+  simp only [toResp]
+  obtain ⟨r'', S, v, hT, hvv, hev⟩ := hrow
+  obtain ⟨nowT', a, key, kn', F, mac, e1, e2, e3, e4, e5, hf, hG, hts, he, _, hh⟩ :=
+    ServerContent.signed_nodata_final_of_run cfg tr now 65535 req (minBuf_le tr _ hp16) hpay hp16 hrM t mw r' question
+      h.hrun r'' S hT v hvv hev b hb
+  rw [h.hnow] at e1; cases e1
+  have hkw : kn'.wire = Tsig.lowerName kn.wire := by rw [ServerAnswer.parse_wire _ _ e4, h.ht]; rfl
+  have hkwf := parse_wf e4
+  -- the reply fits
+  have h3 := ServerContent.preTsig_size3 cfg tr 65535 req (minBuf_le tr _ hp16) hpay hrM
+  have hfit : TsigFits (preTsigState cfg tr 65535 req) (.response (toWriterAlg a) t.mac key.secret)
+      (prepOf kn' t nowT 0) := by
+    unfold tsigAfter at hT
+    rw [h.hnow] at hT
+    obtain ⟨kn2, hk2, hc⟩ := ServerContent.tsigProcess_rows realHmac cfg.keys _ h3 t mw.toList nowT r' _ S hT
+    rw [e4] at hk2; cases hk2
+    rcases hc with ⟨_, _, _, _, _, _, hn⟩ | ⟨a2, key2, ha2, hk2, _, hc⟩
+    · cases hn
+    · rw [e2] at ha2; cases ha2
+      rw [e3] at hk2; cases hk2
+      rcases hc with ⟨hf', _⟩ | ⟨_, hn⟩
+      · exact hf'
+      · cases hn
+  rw [h.ht] at e2 e3 e5 hfit hts
+  have hmo := modelOutcome_authenticated cfg.keys nowT kn alg rest mw.toList a key e2 e3 e5
+  rw [hmo]
+  have hfa := fieldsAgree_of (Tsig.lowerName kn.wire) alg rest h.h10
+  have hfit' : auditNeed (Spec.Server.specScan cat cfg.payload req)
+      ⟨kn.labels, fieldsOf alg.labels rest, mw.toList, .authenticated,
+        Spec.ServerTsig.findKey (specKeys cfg.keys) kn.labels⟩ ≤
+      auditLimit (Spec.Server.specScan cat cfg.payload req) (decide (tr = .udp)) := by
+    rw [auditNeed_eq _ _ iq ie kn alg h.hkn h.halg, auditLimit_eq _ _ il tr]
+    have hkl : kn'.wire.length = kn.wire.length := by rw [hkw]; simp [Tsig.lowerName]
+    rw [← reserved_of_auth kn alg h.halg kn' hkl a e2 (viewRr kn alg rest).mac key.secret (viewRr kn alg rest) nowT]
+    have := (C10_audit_fits cfg tr 65535 req (minBuf_le tr _ hp16) hpay hrM _ _).mp hfit
+    cases tr <;> exact this
+  obtain ⟨l1, l2⟩ := prepOf_lengths kn' (viewRr kn alg rest) nowT 0
+  obtain ⟨dm, hdm⟩ := ServerContent.decodes_of_good F _ hG b mac hf
+  obtain ⟨g1, g2, g3, g4, g5, g6, restR, o, q1, q2, q3, q4, q5, q6, q7⟩ :=
+    ServerContent.decoded_nodata_tsig F _ hG _ hts (algName_wf _) l1 l2 _ cfg.payload he _ hh b mac hf dm hdm
+  simp only [respTsig] at q6 q7
+  simp only at g1 g2 g3
+  obtain ⟨rkn, hl1, hl2⟩ := labelsOf_of_lower o.owner kn' hkwf q6
+  have hl3 : rkn.map (·.map Spec.Tsig.lower) = kn.labels.map (·.map Spec.Tsig.lower) := by
+    rw [hl2]
+    exact (labels_lower_iff kn' kn hkwf h.hkn).mpr (by rw [hkw, lowerName_idem])
+  have hlastT : dm.ar.getLast?.map (·.ty) = some 250 := by rw [q1]; simp [q3]
+  have htsF : dm.ar.filter (fun r => r.ty = 250) = [o] := by
+    rw [q1]
+    exact filter_snoc_unique (fun r : Spec.DRr => decide (r.ty = 250)) (fun r => decide (r.ty = 41)) restR o
+      (fun x hx => decide_eq_true (q2 x hx)) (fun x hx => by
+        have := of_decide_eq_true hx; simp [this]) (decide_eq_true q3)
+  have hidd : dm.id = Spec.Server.hdr req 0 := by
+    rw [decode_id b dm hdm]
+    exact (ServerScan.response_echo cfg tr now 65535 req (minBuf_le tr _ hp16) hpay b hb).1
+  have hnat : ∀ x : TimeSigned, Spec.Tsig.nat48 x.asSlice = x.toUnix := fun x => by
+    simp [Spec.Tsig.nat48, TimeSigned.asSlice, TimeSigned.toUnix]; omega
+  have hnow' : Spec.Tsig.nat48 nowT.asSlice = now := by rw [hnat, toUnix_tryFromUnix now nowT h.hnow]
+  have hoidm : (ReadTsigRr.originalId (viewRr kn alg rest)).toNat % 65536 = (fieldsOf alg.labels rest).originalId := by
+    rw [hfa.origId]; exact Nat.mod_eq_of_lt (UInt16.toNat_lt _)
+  have halgL : (algName (toWriterAlg a)).labels.map (·.map Spec.Tsig.lower) =
+      alg.labels.map (·.map Spec.Tsig.lower) :=
+    (labels_lower_iff _ alg (algName_wf _) h.halg).mpr (by rw [stop_algName alg a e2, lowerName_idem])
+  -- the MAC
+  have hlowk : Tsig.lowerName kn'.wire = kn'.wire := by rw [hkw, lowerName_idem]
+  have wf := prepOf_wf kn' (viewRr kn alg rest) nowT 0 (ServerContent.labels_lower_of_wire kn' hkwf hlowk) (by omega)
+  have hreq : (viewRr kn alg rest).mac.length ≤ 65535 := by
+    have hm' : (viewRr kn alg rest).mac = (fieldsOf alg.labels rest).mac := hfa.mac.symm
+    rw [hm']
+    show ((rest.drop 10).take (Spec.Tsig.field16 rest 8)).length ≤ 65535
+    rw [List.length_take]
+    have : Spec.Tsig.field16 rest 8 ≤ 65535 := by
+      unfold Spec.Tsig.field16
+      have := (rest.getD 8 0).toNat_lt; have := (rest.getD (8 + 1) 0).toNat_lt; omega
+    omega
+  obtain ⟨rest', o', hdar', hlen, k, hfk, hall⟩ := ServerContent.response_mac_audit cfg.keys hk kn h.hkn a key e3
+    F _ hG _ wf _ hreq _ hts b mac hf dm hdm
+  rw [q1] at hdar'
+  obtain ⟨_, eo⟩ := List.append_inj' hdar' rfl
+  simp only [List.cons.injEq, and_true] at eo
+  subst eo
+  have e18 : Writer.XR_BADTIME = 18 := by decide
+  refine auditResponse_authenticated hmSpec _ _ _ _ _ now _ _ _ b plain dm o _ rkn hdm hfit' htsF q7 hl1 hlastT q4 q5
+    hl3 halgL rfl hoidm hidd rfl g6 ?_ ?_ ⟨k, hfk, ?_⟩ rfl hnow' (hdata dm hdm)
+  · rw [g1]; rcases hvv with rfl | rfl | rfl | rfl <;> decide
+  · show (mac.getD []).length = (Spec.Tsig.outputSizeOf alg.labels).getD 0
+    have e2' : Algorithm.fromName (Tsig.lowerName alg.wire) = some a := e2
+    rw [hlen, outputSizeOf_view alg h.halg, e2']; rfl
+  · have := hall rkn hl2
+    have hm' : (fieldsOf alg.labels rest).mac = (viewRr kn alg rest).mac := hfa.mac
+    rw [hm']
+    exact this
+
 /-! ## non-vacuity: concrete instances of the hypotheses used above -/
 
 /-- a writer as `handle_message` sets it up over TCP (65535 zeroed octets, header only) -/
